@@ -123,6 +123,25 @@ func prepare(o *options, pp *PlanProperty, hs []PlanHarness, load bool) *loaded 
 		}
 		genReplayTest(build, o.repo, pkgDir, name, fns, ov)
 	}
+	for _, rw := range pp.Rewrites {
+		src, err := os.ReadFile(filepath.Join(o.repo, rw.File))
+		if err != nil {
+			fatal("rewrite: %v", err)
+		}
+		txt := string(src)
+		for _, s := range rw.Subst {
+			if !strings.Contains(txt, s[0]) {
+				fmt.Printf("gosx: note: rewrite of %s: %q does not occur in the current source\n", rw.File, s[0])
+			}
+			txt = strings.ReplaceAll(txt, s[0], s[1])
+		}
+		gen := filepath.Join(build, "gen", "rewritten_"+strings.ReplaceAll(rw.File, "/", "_"))
+		os.MkdirAll(filepath.Dir(gen), 0o755)
+		if err := os.WriteFile(gen, []byte(txt), 0o644); err != nil {
+			fatal("%v", err)
+		}
+		ov.Files[filepath.Join(o.repo, rw.File)] = gen
+	}
 	ovJS := filepath.Join(build, "overlay.json")
 	writeOverlayJSON(ovJS, ov)
 	ld := &loaded{ov: ov, build: build, ovJS: ovJS, pkgs: map[string]*ssa.Package{}}
